@@ -14,6 +14,8 @@ NEXT = "re:iter::traits::iterator::Iterator::next$"
 
 
 def run(c):
+    import r9
+    c.r9("C01")
     # --- transaction
     c.r1_all("tx-validate", T + "Transaction::validate",
              [T + "TransactionBody::verify_features", T + "TransactionBody::validate", VKS], via=2)
